@@ -31,7 +31,7 @@ def element_records():
     for z in range(1, 119):
         rec = {'z': z, 'sym': '', 'by_sym': 0, 'by_num': '', 'dist': [], 'mass': [], 'mdl': 0, 'pack_ref': pack_ref[z] if z < len(pack_ref) else -999,
                'unpack_ref': unpack_ref[z] if z < len(unpack_ref) else -999, 'unpack_sym': unpack_sym[z] if z < len(unpack_sym) else '',
-               'mass_nat': 0, 'mass_iso': [], 'qz': 0, 'qsym': 0, 'dz': 0, 'dsym': 0, 'rules': 0, 'nrules': -1}
+               'mass_nat': 0, 'mass_iso': [], 'qz': 0, 'qsym': 0, 'dz': 0, 'dsym': 0, 'qname': '', 'dname': '', 'rules': 0, 'nrules': -1}
         try:
             cls = Element.from_atomic_number(z)
             e = cls()
@@ -53,11 +53,13 @@ def element_records():
             try:
                 rec['qz'] = QueryElement.from_atomic_number(z)().atomic_number
                 rec['qsym'] = QueryElement.from_symbol(e.atomic_symbol)().atomic_number
+                rec['qname'] = QueryElement.from_atomic_number(z)().atomic_symbol
             except Exception:
                 pass
             try:
                 rec['dz'] = DynamicElement.from_atomic_number(z)(None).atomic_number
                 rec['dsym'] = DynamicElement.from_symbol(e.atomic_symbol)(None).atomic_number
+                rec['dname'] = DynamicElement.from_atomic_number(z)(None).atomic_symbol
             except Exception:
                 pass
             try:
